@@ -378,3 +378,99 @@ func c02Classes(N, C int) {
 
 func H_c02_classes_q() { c02Classes(4, 2) }
 func H_c02_classes_t() { c02Classes(5, 3) }
+
+// c02Garbage: storage reuse from an ARBITRARY prior state (one inductive step): every
+// element of every scratch slice of a CanonicalStorage / CanonicalOrderedPartition pair
+// of capacity N is an unconstrained symbolic int and the slice lengths are whatever an
+// earlier call may have left (here: full capacity); after Reset the call must return
+// exactly what a fresh call returns.  A stale read makes the result depend on a garbage
+// variable and the equality obligation fails.
+func c02Garbage(N int) {
+	M := N * (N - 1) / 2
+	cs := NewStorage(N, M)
+	op := NewOrderedPartition(N, M, nil)
+	fill := func(s []int) []int {
+		s = s[:cap(s)]
+		for i := range s {
+			s[i] = rt.Int("garbage")
+		}
+		return s
+	}
+	cs.path = fill(cs.path)
+	cs.choices = fill(cs.choices)
+	cs.currentBest = fill(cs.currentBest)
+	cs.currentBestPath = fill(cs.currentBestPath)
+	cs.currentBestPerm = fill(cs.currentBestPerm)
+	cs.currentBestPermInv = fill(cs.currentBestPermInv)
+	cs.currentBestOrbits = fill(cs.currentBestOrbits)
+	cs.firstLeaf = fill(cs.firstLeaf)
+	cs.firstLeafPermInv = fill(cs.firstLeafPermInv)
+	cs.firstLeafOrbits = fill(cs.firstLeafOrbits)
+	cs.firstLeafPath = fill(cs.firstLeafPath)
+	cs.space = fill(cs.space)
+	cs.nbs = fill(cs.nbs)
+	cs.timesSeen = fill(cs.timesSeen)
+	cs.maxCell = fill(cs.maxCell)
+	cs.numberOfMax = fill(cs.numberOfMax)
+	for i := range cs.dws {
+		cs.dws[i] = keyValue{value: rt.Int("garbage"), key: rt.Int("garbage")}
+	}
+	for i := range cs.generators {
+		if rt.Choice("genshape", 2) == 1 {
+			cs.generators[i] = fill(make([]int, N))
+		}
+	}
+	op.order = fill(op.order)
+	op.binDividers = fill(op.binDividers)
+	op.binAges = fill(op.binAges)
+	op.binsToCheck = fill(op.binsToCheck)
+	op.value = fill(op.value)
+	op.inCell = fill(op.inCell)
+	op.age = rt.Int("garbage")
+	op.singletonPrefixLength = rt.Int("garbage")
+
+	n := 1 + rt.Choice("n", N)
+	adj := vgAdj(n, vgBits(n))
+	g := vgSparse(adj)
+	nb := make([][]int, n)
+	for v := range nb {
+		nb[v] = g.Neighbours(v)
+	}
+	op.Reset(n, g.M(), nil)
+	var perm []int
+	var orbits disjoint.Set
+	var gens [][]int
+	p, msg := rt.Panics(func() { perm, orbits, gens = CanonicalIsomorphAllocated(n, g.M(), nb, op, cs, new(CanonicalOptions)) })
+	rt.Check(!p, "reuse from an arbitrary prior state panicked: "+msg)
+	if p {
+		return
+	}
+	fp, fo, fg := CanonicalIsomorphFull(g, nil)
+	rt.Check(len(perm) == len(fp), "arbitrary prior state: permutation length differs")
+	for i := range fp {
+		if i < len(perm) {
+			rt.Check(perm[i] == fp[i], "arbitrary prior state: permutation differs from a fresh call (stale scratch cell read)")
+		}
+	}
+	rt.Check(len(orbits) == len(fo), "arbitrary prior state: orbits length differs")
+	if len(orbits) == len(fo) {
+		for i := range fo {
+			rt.Check(orbits[i] == fo[i], "arbitrary prior state: orbit structure differs from a fresh call")
+		}
+	}
+	rt.Check(len(gens) == len(fg), "arbitrary prior state: number of generators differs")
+	if len(gens) == len(fg) {
+		for k := range fg {
+			rt.Check(len(gens[k]) == len(fg[k]), "arbitrary prior state: generator length differs")
+			for i := range fg[k] {
+				if i < len(gens[k]) {
+					rt.Check(gens[k][i] == fg[k][i], "arbitrary prior state: generator differs from a fresh call")
+				}
+			}
+		}
+	}
+	rt.Reach("end")
+}
+
+func H_c02_garbage_q() { c02Garbage(4) }
+func H_c02_garbage_t() { c02Garbage(5) }
